@@ -52,6 +52,7 @@ import (
 	"os"
 	"runtime"
 	"slices"
+	"strings"
 	"sync"
 	_ "unsafe"
 
@@ -105,6 +106,7 @@ type interpreter struct {
 	depth       int
 	lastUnknown string
 	harnessPkgs map[*ssa.Package]bool
+	cur         *frame
 	methCache   map[methKey]*ssa.Function
 	fnInfos     map[*ssa.Function]*fnInfo
 	backing     map[*value][]value // &s[k] -> s[k:] for unsafe reinterpretation (recorded on IndexAddr when needed)
@@ -231,10 +233,10 @@ type methKey struct {
 func visitInstr(fr *frame, instr ssa.Instruction) continuation {
 	i := fr.i
 	i.stats.Steps++
-	if ps := i.ps; ps != nil {
+	if ps := i.ps; ps != nil && i.inInit == 0 {
 		ps.steps++
 		if ps.steps > i.cfg.MaxSteps {
-			ps.fail("budget", "step budget %d exhausted (possible hang) in %s", i.cfg.MaxSteps, fr.fn)
+			ps.fail("budget", "step budget %d exhausted (possible hang) in %s\n%s", i.cfg.MaxSteps, fr.fn, i.stackString())
 		}
 	}
 	switch instr := instr.(type) {
@@ -589,6 +591,9 @@ func callSSA(i *interpreter, caller *frame, callpos token.Pos, fn *ssa.Function,
 		panic("interp requires ssa.BuilderMode to include InstantiateGenerics to execute generics")
 	}
 	i.funcsRun[fn]++
+	savedCur := i.cur
+	i.cur = fr
+	defer func() { i.cur = savedCur }()
 	i.depth++
 	if i.depth > 2000 {
 		i.depth = 0
@@ -840,4 +845,13 @@ func (i *interpreter) infoOf(fn *ssa.Function) *fnInfo {
 
 func (fr *frame) set(key ssa.Value, v value) {
 	fr.env[fr.info.index[key]] = v
+}
+
+// stackString renders the interpreted call stack (innermost first).
+func (i *interpreter) stackString() string {
+	var sb strings.Builder
+	for fr, n := i.cur, 0; fr != nil && n < 40; fr, n = fr.caller, n+1 {
+		sb.WriteString("  " + fr.fn.String() + "\n")
+	}
+	return sb.String()
 }
